@@ -189,7 +189,8 @@ void Search::go()
 #ifdef CHESSPP_VERIF
     verif::at(verif::GO_AFTER_INIT, this);
 #endif
-    stop_search = false;
+    // stop_search is initialised to false by the constructor; it must not be reset
+    // here, or a stop that arrives before the search thread gets this far is lost
     _start_time = std::chrono::steady_clock::now();
 #ifdef CHESSPP_VERIF
     verif::at(verif::GO_AFTER_RESET, this);
